@@ -164,15 +164,20 @@ func (e *explorer) check(x *Exec, res *Result, choices []int32, devs int, counte
 	hk := eventHash(res)
 	_, seen := e.outcomes[hk]
 	e.outcomes[hk] = struct{}{}
-	// every 64th passing execution is replayed to check determinism
+	// every 64th execution is replayed to check determinism. A difference on an execution the
+	// oracle rejects anyway (e.g. a change that added process-wide state) is reported as that
+	// violation; on a passing execution it is an engine error.
 	if counted && e.rep.Executions%64 == 1 {
 		_, r2 := runOne(e.sc.Opts, choices, nil, e.sc.Run, nil, nil)
 		if eventHash(r2) != hk {
-			e.rep.EngineError = fmt.Sprintf("nondeterminism: replay of %v produced a different event log", choices)
-			e.stop = true
-			return
+			if e.safeCheck(res) == "" {
+				e.rep.EngineError = fmt.Sprintf("nondeterminism: replay of %v produced a different event log", choices)
+				e.stop = true
+				return
+			}
+		} else {
+			e.rep.ReplayChecked++
 		}
-		e.rep.ReplayChecked++
 	}
 	if seen {
 		// an identical Result (log, status, clock, blocked/alive threads, panics are all in the
@@ -200,7 +205,9 @@ func (e *explorer) check(x *Exec, res *Result, choices []int32, devs int, counte
 	conf := 0
 	for i := 0; i < 5; i++ {
 		_, r2 := runOne(e.sc.Opts, choices, nil, e.sc.Run, nil, nil)
-		if m2 := e.sc.Check(r2); m2 == msg {
+		// the same schedule must fail with the same signature (the text after the colon may carry
+		// run-dependent detail)
+		if m2 := e.sc.Check(r2); m2 == msg || (m2 != "" && strings.SplitN(m2, ":", 2)[0] == sig) {
 			conf++
 		}
 	}
